@@ -322,14 +322,14 @@ def _convert_expected(ctx, st, fname, to, outname, remove_unused, jax, verbose, 
         if outname is None:
             return []
         to = pathlib.PurePosixPath(outname).suffix
-    common = {"fname": fname, "suffix": to, "outname": outname, "scheme": scheme, "remove_unused": remove_unused,
+    common = {"fname": fname, "outname": outname, "scheme": scheme, "remove_unused": remove_unused,
               "verbose": verbose, "stiff_states": stiff_states, "delta": delta}
     out = []
     if to in _C_SET:
-        out.append(("gotran2c.main", dict(common)))
+        out.append(("gotran2c.main", dict(common, suffix=".h" if to == "c" else to)))  # the suffix is always a valid file suffix
     if to in _PY_SET:
         bk = ctx.ev_contract_expr("ite(jax, 'jax', 'numpy')", I.State({"jax": jax}, st.pc, st.decisions, st.assumed))
-        out.append(("gotran2py.main", dict(common, backend=bk)))
+        out.append(("gotran2py.main", dict(common, backend=bk, suffix=".py")))
     if to in {".ode"}:
         out.append(("cellml2ode.main", {"fname": fname, "outname": outname, "verbose": verbose}))
     return out
